@@ -72,6 +72,8 @@ def one_batch(seed: int) -> list:
                 ct = rng.choice(["all", "float", " Float "])
                 rec("get_values_typed", form, dict(a, complete=comp), lambda c=c, comp=comp, ct=ct: [vals(r) for r in table.get_values(c, cell_type=ct, complete=comp)])
             rec("get_cells_flat", form, a, lambda c=c: codes(table.get_cells(c, flat=True)))
+            for f, kw in (("style", {"style": "ce1"}), ("typed", {"cell_type": "all"}), ("content", {"content": "^k$"})):
+                rec("get_cells_filtered", form, dict(a, f=f), lambda c=c, kw=kw: [codes(r) for r in table.get_cells(c, **kw)])
         # rows
         rows_forms = [("tuple2", (y, t)), ("str", f"{y + 1}:{t + 1}"), ("tuple4", (0, y, w, t))]
         if t < h:
@@ -112,7 +114,7 @@ def generate(n: int, seed: int, procs=None) -> list:
 
 
 DEPTH = {"get_value": 0, "get_cell": 0, "get_values": 2, "get_cells": 2, "get_rows": 2, "get_columns": 1,
-         "get_values_flat": 1, "get_cells_flat": 1, "get_columns_style": 1, "get_values_typed": 2, "get_column_values_typed": 1,
+         "get_values_flat": 1, "get_cells_flat": 1, "get_columns_style": 1, "get_values_typed": 2, "get_column_values_typed": 1, "get_cells_filtered": 2,
          "get_row": 1, "get_column_values": 1, "row_get_values": 1}
 
 
